@@ -343,11 +343,11 @@ func (w *Writer) WriteCSM(csm io.ColumnSeriesMap, isVariableLength bool) error {
 			}
 		}
 
-		rs, err := cs.ToRowSeries(tbk, alignData)
+		// serialize the columns in the bucket's column order, not in the order of the request
+		rowData, _, err := io.SerializeColumnsToRows(cs, dbDSV, alignData)
 		if err != nil {
 			return fmt.Errorf("convert column series to row series. tbk=%s: %w", tbk, err)
 		}
-		rowData := rs.GetData()
 		err = w.WriteRecords(times, rowData, dbDSV, tbi)
 		if err != nil {
 			return fmt.Errorf("write records to %v: %w", tbi, err)
